@@ -266,35 +266,7 @@ Qed.
 Lemma dot_atom : basic_ok CAny [46].
 Proof. split; [|reflexivity]. intro x. reflexivity. Qed.
 
-(* ------------------------------------------------------------------ D. category classes (no extra letters) *)
-Definition class_info (code : Z) : option (str * cset) :=
-  match cat_re false [] code with
-  | Some t => match parse_atom t with Some (cs, []) => Some (t, cs) | _ => None end
-  | None => None
-  end.
-
-Definition class_good (code : Z) : Prop :=
-  exists t cs, cat_re false [] code = Some t /\ basic_ok cs t /\
-               forall ct c, sem_cset ct cs c = cat_sem ct false [] code c.
-
-Local Arguments Z.eqb : simpl nomatch.
-Local Arguments Z.leb : simpl nomatch.
-
-Ltac class_parse := split; [let x := fresh "x" in intro x; destruct x; reflexivity|reflexivity].
-Ltac sem_atoms :=
-  repeat match goal with
-         | |- context [is_word ?ct ?c] => destruct (is_word ct c)
-         | |- context [ct_alnum ?ct ?c] => destruct (ct_alnum ct c)
-         | |- context [ct_space ?ct ?c] => destruct (ct_space ct c)
-         | |- context [ct_decimal ?ct ?c] => destruct (ct_decimal ct c)
-         | |- context [between ?a ?b ?c] => destruct (between a b c)
-         | |- context [Z.eqb ?a ?b] => destruct (Z.eqb a b)
-         end; reflexivity.
-Ltac class_sem :=
-  let ct := fresh "ct" in let c := fresh "c" in
-  intros ct c; unfold cat_sem; cbn; unfold is_upper, is_lower, is_09, is_word; cbn;
-  rewrite ?(Z.eqb_sym 95 c); sem_atoms.
-
+(* ------------------------------------------------------------------ D0. sets of characters in brackets *)
 (* the order in which escaped_bracket writes a set of characters *)
 Definition bracket_order (chars : str) : str :=
   (if memc 93 chars then [93] else []) ++ filter (fun c => negb (memc c bracket_specials)) chars ++
@@ -324,52 +296,6 @@ Qed.
 Lemma br_chars_sem ct l c : existsb (fun b => sem_britem ct b c) (map BChar l) = memc c l.
 Proof.
   unfold memc. induction l as [|x l IH]; cbn [map existsb sem_britem]; [reflexivity|]. rewrite IH, (Z.eqb_sym x c). reflexivity.
-Qed.
-
-Lemma punct_set_sem c : memc c (punct_chars []) = punct_sem [] c.
-Proof.
-  destruct (between 33 126 c) eqn:Eb.
-  - assert (Hin : In c (map Z.of_nat (seq 33 94))).
-    { unfold between in Eb. apply andb_true_iff in Eb as [H1 H2]. apply Z.leb_le in H1. apply Z.leb_le in H2.
-      apply in_map_iff. exists (Z.to_nat c). split; [lia|]. apply in_seq. lia. }
-    assert (Hall : forallb (fun k => Bool.eqb (memc k (punct_chars [])) (punct_sem [] k))
-                           (map Z.of_nat (seq 33 94)) = true) by (vm_compute; reflexivity).
-    rewrite forallb_forall in Hall. specialize (Hall c Hin). apply Bool.eqb_prop in Hall. exact Hall.
-  - unfold punct_sem. rewrite Eb. cbn [andb].
-    assert (Hr : forallb (between 33 126) (punct_chars []) = true) by (vm_compute; reflexivity).
-    rewrite forallb_forall in Hr. destruct (memc c (punct_chars [])) eqn:E; [|reflexivity].
-    apply memc_In in E. rewrite (Hr c E) in Eb. discriminate.
-Qed.
-
-From Coq Require Import String.
-Local Open Scope string_scope.
-Ltac class_case t cs := exists t, cs; split; [vm_compute; reflexivity|split; [class_parse|class_sem]].
-
-Theorem class_codes_good : Forall class_good class_codes.
-Proof.
-  unfold class_codes. repeat constructor.
-  - class_case (s2l "[A-Z]") (CBr false [BRange 65 90]).
-  - class_case (s2l "[a-z]") (CBr false [BRange 97 122]).
-  - class_case (s2l "[A-Za-z]") (CBr false [BRange 65 90; BRange 97 122]).
-  - class_case (s2l "[^\W0-9_]") (CBr true [BNotWord; BRange 48 57; BChar 95]).
-  - class_case (s2l "[^\W0-9_]") (CBr true [BNotWord; BRange 48 57; BChar 95]).
-  - class_case (s2l "\d") CDigit.
-  - class_case (s2l "[0-9a-f]") (CBr false [BRange 48 57; BRange 97 102]).
-  - class_case (s2l "[0-9A-F]") (CBr false [BRange 48 57; BRange 65 70]).
-  - class_case (s2l "[0-9a-fA-F]") (CBr false [BRange 48 57; BRange 97 102; BRange 65 70]).
-  - class_case (s2l "[A-Z0-9]") (CBr false [BRange 65 90; BRange 48 57]).
-  - class_case (s2l "[a-z0-9]") (CBr false [BRange 97 122; BRange 48 57]).
-  - class_case (s2l "[A-Za-z0-9]") (CBr false [BRange 65 90; BRange 97 122; BRange 48 57]).
-  - class_case (s2l "[^\W_]") (CBr true [BNotWord; BChar 95]).
-  - class_case (s2l "\s") CSpace.
-  - (* punctuation: the bracket over the 32 ASCII punctuation characters *)
-    exists (escaped_bracket false (punct_chars [])), (CBr false (map BChar (bracket_order (punct_chars [] )))).
-    split; [reflexivity|]. split.
-    + split; [|reflexivity]. intro x. destruct x; vm_compute; reflexivity.
-    + intros ct c. cbn [sem_cset xorb]. rewrite br_chars_sem, (memc_ext _ _ c (bracket_order_In (punct_chars []))), punct_set_sem.
-      change (cat_sem ct false [] cP c) with (punct_sem [] c). destruct (punct_sem [] c); reflexivity.
-  - class_case (s2l "[^!-~\s]") (CBr true [BRange 33 126; BSpace]).
-  - class_case (s2l ".") CAny.
 Qed.
 
 (* ------------------------------------------------------------------ E. bracket expressions over an arbitrary set *)
@@ -506,6 +432,85 @@ Proof.
       specialize (Hbody (List.length x)). cbn [List.length Nat.add app] in Hbody. rewrite Hbody. reflexivity.
 Qed.
 
+(* ------------------------------------------------------------------ D. category classes, for every set of extra letters *)
+Lemma norm_extras_in8 x : In (norm_extras x) extras8.
+Proof.
+  unfold norm_extras. cbn [filter]. destruct (memc 95 x), (memc 46 x), (memc 45 x); cbn; tauto.
+Qed.
+
+Definition class_good (e : str) (code : Z) : Prop :=
+  exists t cs, cat_re false e code = Some t /\ atom_ok cs t /\
+               forall ct c, sem_cset ct cs c = cat_sem ct false e code c.
+
+Local Arguments Z.eqb : simpl nomatch.
+Local Arguments Z.leb : simpl nomatch.
+
+Ltac sem_atoms :=
+  repeat match goal with
+         | |- context [is_word ?ct ?c] => destruct (is_word ct c)
+         | |- context [ct_alnum ?ct ?c] => destruct (ct_alnum ct c)
+         | |- context [ct_space ?ct ?c] => destruct (ct_space ct c)
+         | |- context [ct_decimal ?ct ?c] => destruct (ct_decimal ct c)
+         | |- context [between ?a ?b ?c] => destruct (between a b c)
+         | |- context [Z.eqb ?a ?b] => destruct (Z.eqb a b)
+         end; reflexivity.
+Ltac class_sem :=
+  let ct := fresh "ct" in let c := fresh "c" in
+  intros ct c; unfold cat_sem; cbn; unfold is_upper, is_lower, is_09, is_word; cbn;
+  rewrite ?(Z.eqb_sym 95 c), ?(Z.eqb_sym 46 c), ?(Z.eqb_sym 45 c); sem_atoms.
+Ltac class_auto :=
+  eexists; eexists; split; [vm_compute; reflexivity|
+    split; [split; [let x := fresh "x" in intro x; destruct x; [vm_compute; reflexivity|reflexivity]|reflexivity]|class_sem]].
+
+(* punctuation: the characters of the class are exactly those punct_sem accepts *)
+Lemma memc_filter (p : Z -> bool) l c : memc c (filter p l) = memc c l && p c.
+Proof.
+  destruct (memc c (filter p l)) eqn:E.
+  - apply memc_In, filter_In in E as [H1 H2]. apply memc_In in H1. rewrite H1, H2. reflexivity.
+  - destruct (memc c l) eqn:E1; [|reflexivity]. destruct (p c) eqn:E2; [|reflexivity].
+    assert (memc c (filter p l) = true) by (apply memc_In, filter_In; split; [apply memc_In; exact E1|exact E2]). congruence.
+Qed.
+
+Lemma punct_set_sem e c : memc c (punct_chars e) = punct_sem e c.
+Proof.
+  unfold punct_chars. rewrite memc_filter. destruct (punct_sem e c) eqn:Ep; [|apply andb_false_r]. rewrite andb_true_r.
+  apply memc_In, in_map_iff. unfold punct_sem in Ep. apply andb_true_iff in Ep as [Ep _]. apply andb_true_iff in Ep as [Eb _].
+  unfold between in Eb. apply andb_true_iff in Eb as [H1 H2]. apply Z.leb_le in H1. apply Z.leb_le in H2.
+  exists (Z.to_nat c). split; [lia|]. apply in_seq. lia.
+Qed.
+
+Lemma punct_chars_nonempty e : In e extras8 -> punct_chars e <> [].
+Proof.
+  intro He. assert (Hin : In 33 (punct_chars e)).
+  { apply memc_In. rewrite punct_set_sem. cbn in He.
+    destruct He as [<-|[<-|[<-|[<-|[<-|[<-|[<-|[<-|[]]]]]]]]]; reflexivity. }
+  intro E. rewrite E in Hin. destruct Hin.
+Qed.
+
+Lemma punct_good e : In e extras8 -> class_good e cP.
+Proof.
+  intro He. exists (escaped_bracket false (punct_chars e)), (CBr false (map BChar (bracket_order (punct_chars e)))).
+  split; [reflexivity|]. split; [apply basic_atom, bracket_atom, punct_chars_nonempty; exact He|].
+  intros ct c. cbn [sem_cset xorb]. rewrite br_chars_sem, (memc_ext _ _ c (bracket_order_In (punct_chars e))), punct_set_sem.
+  change (cat_sem ct false e cP c) with (punct_sem e c). destruct (punct_sem e c); reflexivity.
+Qed.
+
+Theorem class_codes_good :
+  Forall (fun e => Forall (fun code => cat_re false e code = None \/ class_good e code) all_codes) extras8.
+Proof.
+  unfold extras8, all_codes, class_codes. cbn [app].
+  repeat (apply Forall_cons || apply Forall_nil);
+    first [ left; vm_compute; reflexivity
+          | right; apply punct_good; cbn; tauto
+          | right; class_auto ].
+Qed.
+
+Lemma class_lookup e code t : In e extras8 -> In code all_codes -> cat_re false e code = Some t -> class_good e code.
+Proof.
+  intros He Hc Ht. pose proof (proj1 (Forall_forall _ _) class_codes_good e He) as H1.
+  destruct (proj1 (Forall_forall _ _) H1 code Hc) as [Hn|Hg]; [congruence|exact Hg].
+Qed.
+
 (* ------------------------------------------------------------------ F. fragments and whole expressions *)
 Lemma parse_seq_mono f : forall top s r, parse_seq f top s = Some r -> forall k, parse_seq (f + k) top s = Some r.
 Proof.
@@ -525,12 +530,12 @@ Lemma parse_seq_ge f f' top s r : parse_seq f top s = Some r -> (f <= f')%nat ->
 Proof. intros H Hle. replace f' with (f + (f' - f))%nat by lia. apply parse_seq_mono. exact H. Qed.
 
 (* how the text of one fragment parses, and what its items accept *)
-Definition part_good (top : bool) (f : frag) (part : str) (its : list item) (k : nat) : Prop :=
+Definition part_good (e : str) (top : bool) (f : frag) (part : str) (its : list item) (k : nat) : Prop :=
   (forall fuel rest irest rend, starts_quant rest = false -> parse_seq fuel top rest = Some (irest, rend) ->
      parse_seq (k + fuel) top (part ++ rest) = Some (its ++ irest, rend)) /\
   (k <= List.length part)%nat /\
   (forall rest, starts_quant rest = false -> starts_quant (part ++ rest) = false) /\
-  (forall ct s, frag_matches ct false [] f s -> lang ct its s).
+  (forall ct s, frag_matches ct false e f s -> lang ct its s).
 
 Lemma quant_okb_ok m M : quant_okb m M = true -> quant_ok m M.
 Proof.
@@ -539,10 +544,10 @@ Proof.
 Qed.
 
 (* a single quantified atom *)
-Lemma single_part top f cs regex (p : Z -> bool) :
+Lemma single_part e top f cs regex (p : Z -> bool) :
   atom_ok cs regex -> quant_ok (f_min f) (f_max f) ->
-  (forall ct s, frag_matches ct false [] f s -> forallb (sem_cset ct cs) s = true /\ count_ok (f_min f) (f_max f) (List.length s)) ->
-  part_good top f (quantify regex (f_min f) (f_max f)) (quant_items cs regex (f_min f) (f_max f))
+  (forall ct s, frag_matches ct false e f s -> forallb (sem_cset ct cs) s = true /\ count_ok (f_min f) (f_max f) (List.length s)) ->
+  part_good e top f (quantify regex (f_min f) (f_max f)) (quant_items cs regex (f_min f) (f_max f))
             (List.length (quant_items cs regex (f_min f) (f_max f))).
 Proof.
   intros Hok Hq Hsem. split; [|split; [|split]].
@@ -598,10 +603,10 @@ Proof.
   change (S (List.length l)) with (1 + List.length l)%nat. apply Nat.add_le_mono; assumption.
 Qed.
 
-Theorem fragment_part top full f part :
-  frag_renderable f = true -> fragment2re false full [] false f = Ok part -> exists its k, part_good top f part its k.
+Theorem fragment_part e top full f part : In e extras8 ->
+  frag_renderable e f = true -> fragment2re false full e false f = Ok part -> exists its k, part_good e top f part its k.
 Proof.
-  unfold frag_renderable, fragment2re. destruct f as [a m M]. cbn [f_atom f_min f_max andb negb]. intros Hr Hp.
+  intro He. unfold frag_renderable, fragment2re. destruct f as [a m M]. cbn [f_atom f_min f_max andb negb]. intros Hr Hp.
   destruct a as [s|c|code|cs]; cbn [atom_text bind] in Hp.
   - destruct s as [|c [|c2 s2]].
     + (* the empty literal *)
@@ -614,7 +619,7 @@ Proof.
     + (* one character *)
       injection Hp as <-. unfold escape. cbn [flat_map]. rewrite app_nil_r.
       exists (quant_items (CLit c) (escape_char full c) m M), (List.length (quant_items (CLit c) (escape_char full c) m M)).
-      apply (single_part top {| f_atom := ALit [c]; f_min := m; f_max := M |} (CLit c) (escape_char full c) (Z.eqb c));
+      apply (single_part e top {| f_atom := ALit [c]; f_min := m; f_max := M |} (CLit c) (escape_char full c) (Z.eqb c));
         [apply basic_atom, escape_char_basic|apply quant_okb_ok; exact Hr|].
       intros ct s Hm. unfold frag_matches in Hm. cbn [f_atom atom_pred f_min f_max] in Hm. exact Hm.
     + (* a longer literal *)
@@ -632,22 +637,23 @@ Proof.
     apply andb_true_iff in Hr as [Hc Hq]. injection Hp as <-.
     destruct (Z.eqb_spec c 46) as [->|Hne].
     + exists (quant_items CAny [46] m M), (List.length (quant_items CAny [46] m M)).
-      apply (single_part top {| f_atom := ARaw 46; f_min := m; f_max := M |} CAny [46] (fun _ => true));
+      apply (single_part e top {| f_atom := ARaw 46; f_min := m; f_max := M |} CAny [46] (fun _ => true));
         [apply basic_atom, dot_atom|apply quant_okb_ok; exact Hq|].
       intros ct s Hm. unfold frag_matches in Hm. cbn [f_atom atom_pred f_min f_max] in Hm. destruct Hm as [H1 H2].
       split; [|exact H2]. cbn [sem_cset]. clear. induction s; [reflexivity|exact IHs].
     + cbn [orb] in Hc. apply negb_true_iff in Hc. exists (quant_items (CLit c) [c] m M), (List.length (quant_items (CLit c) [c] m M)).
-      apply (single_part top {| f_atom := ARaw c; f_min := m; f_max := M |} (CLit c) [c] (Z.eqb c));
+      apply (single_part e top {| f_atom := ARaw c; f_min := m; f_max := M |} (CLit c) [c] (Z.eqb c));
         [apply basic_atom, not_meta_plain; exact Hc|apply quant_okb_ok; exact Hq|].
       intros ct s Hm. unfold frag_matches in Hm. cbn [f_atom atom_pred f_min f_max] in Hm. destruct Hm as [H1 H2].
       split; [|exact H2]. rewrite <- H1. apply forallb_ext_local. intro x. cbn [sem_cset]. unfold raw_sem.
       replace (Z.eqb c 46) with false by (symmetry; apply Z.eqb_neq; exact Hne). cbn [orb]. apply Z.eqb_sym.
   - (* a category *)
-    apply andb_true_iff in Hr as [Hc Hq]. apply memc_In in Hc.
-    pose proof (proj1 (Forall_forall _ _) class_codes_good code Hc) as (t & cs & Ht & Hok & Hsem).
-    rewrite Ht in Hp. injection Hp as <-. exists (quant_items cs t m M), (List.length (quant_items cs t m M)).
-    apply (single_part top {| f_atom := AClass code; f_min := m; f_max := M |} cs t (fun _ => true));
-      [apply basic_atom; exact Hok|apply quant_okb_ok; exact Hq|].
+    apply andb_true_iff in Hr as [Hc Hq]. apply andb_true_iff in Hc as [Hc Hsome]. apply memc_In in Hc.
+    destruct (cat_re false e code) as [t0|] eqn:Ht0; [|discriminate].
+    destruct (class_lookup e code t0 He Hc Ht0) as (t & cs & Ht & Hok & Hsem).
+    rewrite Ht0 in Ht. injection Ht as <-. injection Hp as <-. exists (quant_items cs t0 m M), (List.length (quant_items cs t0 m M)).
+    apply (single_part e top {| f_atom := AClass code; f_min := m; f_max := M |} cs t0 (fun _ => true));
+      [exact Hok|apply quant_okb_ok; exact Hq|].
     intros ct s Hm. unfold frag_matches in Hm. cbn [f_atom atom_pred f_min f_max] in Hm. destruct Hm as [H1 H2].
     split; [|exact H2]. rewrite <- H1. apply forallb_ext_local. intro x. apply Hsem.
   - (* a bracket over a set of characters *)
@@ -655,7 +661,7 @@ Proof.
     assert (Hne : cs <> []) by (destruct cs; [discriminate|discriminate]).
     exists (quant_items (CBr false (map BChar (bracket_order cs))) (escaped_bracket false cs) m M),
            (List.length (quant_items (CBr false (map BChar (bracket_order cs))) (escaped_bracket false cs) m M)).
-    apply (single_part top {| f_atom := ABracket cs; f_min := m; f_max := M |} _ _ (fun _ => true));
+    apply (single_part e top {| f_atom := ABracket cs; f_min := m; f_max := M |} _ _ (fun _ => true));
       [apply basic_atom, bracket_atom; exact Hne|apply quant_okb_ok; exact Hq|].
     intros ct s Hm. unfold frag_matches in Hm. cbn [f_atom atom_pred f_min f_max] in Hm. destruct Hm as [H1 H2].
     split; [|exact H2]. rewrite <- H1. apply forallb_ext_local. intro x. cbn [sem_cset xorb].
@@ -694,33 +700,28 @@ Proof.
 Qed.
 
 (* with capture groups: a category fragment is wrapped in ( ) *)
-Theorem tagged_fragment_part full tagged f part :
-  frag_renderable f = true -> fragment2re false full [] tagged f = Ok part -> exists its k, part_good true f part its k.
+Theorem tagged_fragment_part e full tagged f part : In e extras8 ->
+  frag_renderable e f = true -> fragment2re false full e tagged f = Ok part -> exists its k, part_good e true f part its k.
 Proof.
-  intros Hr Hp. destruct (tagged && negb (f_fixed f)) eqn:Et.
+  intros He Hr Hp. destruct (tagged && negb (f_fixed f)) eqn:Et.
   - (* wrapped *)
     apply andb_true_iff in Et as [-> Hnf]. apply negb_true_iff in Hnf.
-    unfold fragment2re in Hp. destruct (atom_text false full [] (f_atom f)) as [regex|err] eqn:Ea; cbn [bind] in Hp; [|discriminate].
+    unfold fragment2re in Hp. destruct (atom_text false full e (f_atom f)) as [regex|err] eqn:Ea; cbn [bind] in Hp; [|discriminate].
     rewrite Hnf in Hp. cbn [negb andb] in Hp. injection Hp as <-.
-    assert (Hun : fragment2re false full [] false f = Ok (quantify regex (f_min f) (f_max f))).
+    assert (Hun : fragment2re false full e false f = Ok (quantify regex (f_min f) (f_max f))).
     { unfold fragment2re. rewrite Ea. cbn [bind andb]. reflexivity. }
-    destruct (fragment_part false full f _ Hr Hun) as (its & k & Hparse & Hk & Hhead & Hsem).
-    (* the text does not begin with '(' : its head is that of a category's expression *)
-    assert (Hsw : startswith [40] (quantify regex (f_min f) (f_max f)) = false).
-    { unfold f_fixed in Hnf. destruct f as [a m M]. cbn [f_atom f_min f_max] in *. destruct a as [s|c|code|cs]; try discriminate.
-      unfold frag_renderable in Hr. cbn [f_atom] in Hr. apply andb_true_iff in Hr as [Hc _]. apply memc_In in Hc.
-      pose proof (proj1 (Forall_forall _ _) class_codes_good code Hc) as (t & cs & Ht & [_ Hh] & _).
-      cbn [atom_text] in Ea. rewrite Ht in Ea. injection Ea as <-.
-      destruct t as [|c0 t]; [destruct Hh|]. cbn [head_ok] in Hh. repeat (apply orb_false_iff in Hh as [Hh ?]).
-      unfold quantify. destruct M as [M'|]; repeat match goal with |- context [if ?b then _ else _] => destruct b end;
-        cbn [app startswith]; rewrite (Z.eqb_sym 40 c0); replace (Z.eqb c0 40) with false by (symmetry; assumption); reflexivity. }
+    destruct (fragment_part e false full f _ He Hr Hun) as (its & k & Hparse & Hk & Hhead & Hsem).
     assert (Hatom : exists cs, atom_ok cs regex).
     { unfold f_fixed in Hnf. destruct f as [a m M]. cbn [f_atom f_min f_max] in *. destruct a as [s|c|code|cs]; try discriminate.
-      unfold frag_renderable in Hr. cbn [f_atom] in Hr. apply andb_true_iff in Hr as [Hc _]. apply memc_In in Hc.
-      pose proof (proj1 (Forall_forall _ _) class_codes_good code Hc) as (t & cs & Ht & Hok & _).
-      cbn [atom_text] in Ea. rewrite Ht in Ea. injection Ea as <-. exists cs. apply basic_atom. exact Hok. }
+      unfold frag_renderable in Hr. cbn [f_atom] in Hr. apply andb_true_iff in Hr as [Hc _]. apply andb_true_iff in Hc as [Hc _].
+      apply memc_In in Hc. cbn [atom_text] in Ea. destruct (cat_re false e code) as [t0|] eqn:Ht0; [|discriminate].
+      injection Ea as <-. destruct (class_lookup e code t0 He Hc Ht0) as (t & cs & Ht & Hok & _).
+      rewrite Ht0 in Ht. injection Ht as <-. exists cs. exact Hok. }
     destruct Hatom as [cs0 Hatom].
-    unfold capture_group. rewrite Hsw. cbn [andb].
+    unfold capture_group.
+    destruct (startswith [40] (quantify regex (f_min f) (f_max f)) && endswith [41] (quantify regex (f_min f) (f_max f))).
+    { (* already of the form ( ... ) : an alternation without quantifier, left as it is *)
+      exact (fragment_part e true full f _ He Hr Hun). }
     exists its, (S (S k)). split; [|split; [|split]].
     + intros fuel rest irest rend Hsq Hrest. cbn [app]. rewrite <- app_assoc. cbn [app].
       replace (S (S k) + fuel)%nat with (S (k + (1 + fuel)))%nat by lia.
@@ -733,30 +734,30 @@ Proof.
     + intros rest _. reflexivity.
     + exact Hsem.
   - (* not wrapped *)
-    assert (Hun : fragment2re false full [] false f = Ok part).
-    { unfold fragment2re in *. destruct (atom_text false full [] (f_atom f)) as [regex|err]; cbn [bind] in *; [|discriminate].
+    assert (Hun : fragment2re false full e false f = Ok part).
+    { unfold fragment2re in *. destruct (atom_text false full e (f_atom f)) as [regex|err]; cbn [bind] in *; [|discriminate].
       rewrite Et in Hp. exact Hp. }
-    exact (fragment_part true full f part Hr Hun).
+    exact (fragment_part e true full f part He Hr Hun).
 Qed.
 
 (* all the fragments of a pattern *)
-Lemma fragments_parts full tagged : forall frags parts,
-  forallb frag_renderable frags = true -> mapM (fragment2re false full [] tagged) frags = Ok parts ->
+Lemma fragments_parts e full tagged : In e extras8 -> forall frags parts,
+  forallb (frag_renderable e) frags = true -> mapM (fragment2re false full e tagged) frags = Ok parts ->
   exists its K,
     (forall fuel rest irest rend, starts_quant rest = false -> parse_seq fuel true rest = Some (irest, rend) ->
        parse_seq (K + fuel) true (List.concat parts ++ rest) = Some (its ++ irest, rend)) /\
     (K <= List.length (List.concat parts))%nat /\
     (forall rest, starts_quant rest = false -> starts_quant (List.concat parts ++ rest) = false) /\
-    (forall ct s, matches_frags ct false [] frags s -> lang ct its s).
+    (forall ct s, matches_frags ct false e frags s -> lang ct its s).
 Proof.
-  induction frags as [|f frags IH]; intros parts Hr Hm; cbn [mapM forallb] in *.
+  intro He. induction frags as [|f frags IH]; intros parts Hr Hm; cbn [mapM forallb] in *.
   - injection Hm as <-. exists [], O. cbn [List.concat app Nat.add List.length]. repeat split; try (intros; assumption); try lia.
     intros ct s H. inversion H; subst. constructor.
   - apply andb_true_iff in Hr as [Hr1 Hr2].
-    destruct (fragment2re false full [] tagged f) as [p|err] eqn:Ep; cbn [bind] in Hm; [|discriminate].
-    destruct (mapM (fragment2re false full [] tagged) frags) as [ps|err] eqn:Eps; cbn [bind] in Hm; [|discriminate].
+    destruct (fragment2re false full e tagged f) as [p|err] eqn:Ep; cbn [bind] in Hm; [|discriminate].
+    destruct (mapM (fragment2re false full e tagged) frags) as [ps|err] eqn:Eps; cbn [bind] in Hm; [|discriminate].
     injection Hm as <-. destruct (IH ps Hr2 eq_refl) as (its2 & K2 & Hp2 & Hk2 & Hh2 & Hs2).
-    destruct (tagged_fragment_part full tagged f p Hr1 Ep) as (its1 & k1 & Hp1 & Hk1 & Hh1 & Hs1).
+    destruct (tagged_fragment_part e full tagged f p He Hr1 Ep) as (its1 & k1 & Hp1 & Hk1 & Hh1 & Hs1).
     exists (its1 ++ its2), (k1 + K2)%nat. cbn [List.concat]. split; [|split; [|split]].
     + intros fuel rest irest rend Hsq Hrest. rewrite <- !app_assoc, <- Nat.add_assoc.
       apply Hp1; [apply Hh2; exact Hsq|]. apply Hp2; assumption.
@@ -777,21 +778,22 @@ Qed.
 
 (* THE TEXT THEOREM: the expression rendered for a pattern is inside the modelled fragment of the syntax, and the
    model's reading of it accepts every string that the pattern matches fragment by fragment *)
-Theorem rendered_text_matches ct full stripped tagged frags text s :
-  forallb frag_renderable frags = true ->
-  vrle2re false full [] stripped tagged frags = Ok text ->
-  matches_frags ct false [] frags s ->
+Theorem rendered_text_matches ct e full stripped tagged frags text s :
+  In e extras8 ->
+  forallb (frag_renderable e) frags = true ->
+  vrle2re false full e stripped tagged frags = Ok text ->
+  matches_frags ct false e frags s ->
   re_model_match ct text s = Some true.
 Proof.
-  intros Hr Hv Hm. unfold vrle2re in Hv.
-  destruct (mapM (fragment2re false full [] tagged) frags) as [parts|err] eqn:Ep; cbn [bind] in Hv; [|discriminate].
-  injection Hv as <-. destruct (fragments_parts full tagged frags parts Hr Ep) as (its & K & Hparse & HK & Hhead & Hsem).
+  intros He Hr Hv Hm. unfold vrle2re in Hv.
+  destruct (mapM (fragment2re false full e tagged) frags) as [parts|err] eqn:Ep; cbn [bind] in Hv; [|discriminate].
+  injection Hv as <-. destruct (fragments_parts e full tagged He frags parts Hr Ep) as (its & K & Hparse & HK & Hhead & Hsem).
   specialize (Hsem ct s Hm).
   assert (Hend : forall f, parse_seq (S f) true [36] = Some ([], [])) by reflexivity.
   unfold re_model_match, parse_regex. cbn [app]. change (Z.eqb 94 94) with true. cbv iota.
   destruct stripped.
   - (* ^\s* ... \s*$ *)
-    change (s2l "\s*") with [92; 115; 42].
+    match goal with |- context [s2l ?x] => change (s2l x) with [92; 115; 42] end.
     assert (Hall : parse_seq (S (K + S (S O))) true ([92; 115; 42] ++ List.concat parts ++ [92; 115; 42] ++ [36]) =
                    Some (ws_item :: its ++ [ws_item], [])).
     { apply ws_parses; [apply Hhead; reflexivity|].
@@ -829,31 +831,33 @@ Proof.
 Qed.
 
 (* every working example is matched - in the model's reading of the expression TEXT - by one of the expressions *)
-Theorem batch_text_covers ct o stripped gt ex merged rex :
-  batch_extract ct o [] stripped gt ex = Ok (merged, rex) ->
+Theorem batch_text_covers ct o e stripped gt ex merged rex :
+  batch_extract ct o e stripped gt ex = Ok (merged, rex) ->
   table_ok ct -> 1 <= z_max_strings_in_group o ->
-  batch_oracle_okb ct o [] stripped gt ex = true ->
-  batch_renderable ct o stripped gt ex = true ->
+  batch_oracle_okb ct o e stripped gt ex = true ->
+  batch_renderable ct o e stripped gt ex = true ->
   forall s, In s (ex_strings ex) -> exists text, In text rex /\ re_model_match ct text s = Some true.
 Proof.
   intros Hb Htab Hcap Horc Hren s Hs.
-  destruct (batch_covers_checked ct o [] stripped gt ex merged rex Hb Htab Hcap Horc s Hs) as [fs [Hin Hm]].
-  unfold batch_renderable in Hren. rewrite Hb in Hren. rewrite forallb_forall in Hren.
+  destruct (batch_covers_checked ct o e stripped gt ex merged rex Hb Htab Hcap Horc s Hs) as [fs [Hin Hm]].
+  unfold batch_renderable in Hren. apply andb_true_iff in Hren as [He Hren]. apply mem_str_In in He.
+  rewrite Hb in Hren. rewrite forallb_forall in Hren.
   destruct (mapM_nth_pair _ _ _ fs (batch_rex_of _ _ _ _ _ _ _ _ Hb) Hin) as [text [Ht Hv]].
-  exists text. split; [exact Ht|]. eapply rendered_text_matches; [apply Hren; exact Hin|exact Hv|exact Hm].
+  exists text. split; [exact Ht|]. eapply rendered_text_matches; [exact He|apply Hren; exact Hin|exact Hv|exact Hm].
 Qed.
 
 (* ... and every expression matches one of the working examples (C13) *)
-Theorem batch_text_each_matches ct o stripped gt ex merged rex :
-  batch_extract ct o [] stripped gt ex = Ok (merged, rex) ->
+Theorem batch_text_each_matches ct o e stripped gt ex merged rex :
+  batch_extract ct o e stripped gt ex = Ok (merged, rex) ->
   table_ok ct -> 1 <= z_max_strings_in_group o ->
-  batch_oracle_okb ct o [] stripped gt ex = true ->
-  batch_renderable ct o stripped gt ex = true ->
+  batch_oracle_okb ct o e stripped gt ex = true ->
+  batch_renderable ct o e stripped gt ex = true ->
   forall text, In text rex -> exists s, In s (ex_strings ex) /\ re_model_match ct text s = Some true.
 Proof.
   intros Hb Htab Hcap Horc Hren text Ht.
   destruct (mapM_In _ _ _ _ (batch_rex_of _ _ _ _ _ _ _ _ Hb) Ht) as [fs [Hin Hv]].
-  destruct (batch_each_matches_some ct o [] stripped gt ex merged rex Hb Htab Hcap Horc fs Hin) as [s [Hs Hm]].
-  unfold batch_renderable in Hren. rewrite Hb in Hren. rewrite forallb_forall in Hren.
-  exists s. split; [exact Hs|]. eapply rendered_text_matches; [apply Hren; exact Hin|exact Hv|exact Hm].
+  destruct (batch_each_matches_some ct o e stripped gt ex merged rex Hb Htab Hcap Horc fs Hin) as [s [Hs Hm]].
+  unfold batch_renderable in Hren. apply andb_true_iff in Hren as [He Hren]. apply mem_str_In in He.
+  rewrite Hb in Hren. rewrite forallb_forall in Hren.
+  exists s. split; [exact Hs|]. eapply rendered_text_matches; [exact He|apply Hren; exact Hin|exact Hv|exact Hm].
 Qed.
